@@ -64,6 +64,7 @@ class Scheduler(object):
         # function called `name` (counted per running stretch) switch to t
         self.schedule = [tuple(e) for e in schedule]
         self.fn_lines = 0
+        self.line_events = 0
         self.trace_prefixes = tuple(trace_prefixes)
         self.line_files = tuple(line_files)
         self.max_events = max_events
@@ -98,6 +99,9 @@ class Scheduler(object):
             if e[0] == 'fn':
                 self.want_fn = (e[1], max(1, int(e[2])))
                 self.fn_lines = 0
+            elif e[0] == 'line':            # ['line', n, t]: after n more *line* events (request-processing code only)
+                self.want_fn = (None, max(1, int(e[1])))
+                self.fn_lines = 0
             else:
                 self.countdown = max(1, int(e[0]))
 
@@ -116,7 +120,7 @@ class Scheduler(object):
         return None
 
     def _hand_over(self, me, to, reason):
-        self.switch_log.append((self.events, me, to, reason))
+        self.switch_log.append((self.events, me, to, reason, self.line_events))
         self.running = to
         if self.state[to] == 'blocked':
             self.state[to] = 'ready'
@@ -131,8 +135,10 @@ class Scheduler(object):
         self.events += 1
         if self.events > self.max_events:
             raise Deadlock('more than %d traced events' % self.max_events)
+        if fname is not None:
+            self.line_events += 1
         if self.want_fn is not None:
-            if fname != self.want_fn[0]:
+            if fname is None or (self.want_fn[0] is not None and fname != self.want_fn[0]):
                 return
             self.fn_lines += 1
             if self.fn_lines < self.want_fn[1]:
